@@ -233,3 +233,212 @@ Proof.
   split; [vm_compute; reflexivity|]. split; [vm_compute; reflexivity|].
   eexists. split; [vm_compute; reflexivity|]. vm_compute. discriminate.
 Qed.
+
+(* ------------------------------------------------------------------ *)
+(* the whole docstring, three styles: wrapping changes only whitespace  *)
+(* ------------------------------------------------------------------ *)
+
+Lemma words_app_nl : forall a b, words (a ++ nl :: b) = words a ++ words b.
+Proof. intros a b. now apply words_app_sp_mid. Qed.
+
+Lemma words_join_allsp : forall sep ls, sep <> [] -> allsp sep -> words (join sep ls) = concat (map words ls).
+Proof.
+  intros sep ls Hne Hs. induction ls as [|x r IH]; [reflexivity|].
+  destruct r as [|y r2].
+  - cbn [join map concat]. now rewrite app_nil_r.
+  - rewrite join_cons_cons. destruct sep as [|d sep']; [congruence|].
+    unfold allsp in Hs. cbn [forallb] in Hs. apply andb_true_iff in Hs. destruct Hs as [Hd Hs'].
+    cbn [app]. rewrite words_app_sp_mid by assumption. rewrite words_app_allsp_l by assumption.
+    rewrite IH. reflexivity.
+Qed.
+
+Lemma words_join_filter_nonempty : forall ls,
+    words (join [nl] (filter nonempty ls)) = concat (map words ls).
+Proof.
+  intros ls. rewrite words_join_sep by reflexivity. induction ls as [|x r IH]; [reflexivity|].
+  cbn [filter]. destruct x as [|c t]; cbn [nonempty map concat]; [exact IH|]. now rewrite IH.
+Qed.
+
+(* emit.docstring's final assembly, as a function of the three parts *)
+Definition assemble (st : style) (doc : str) (param_lines : list str) (ret : str) : str :=
+  let nl0 := match st with Rest => [] | _ => [nl] end in
+  let nl1 := match st with Numpydoc => [nl] | _ => [] end in
+  let param_lines' := match param_lines, st with
+                      | [], _ => param_lines
+                      | _, Rest => param_lines
+                      | _, _ => arg_token st :: param_lines
+                      end in
+  let params := join (nl :: match st with Rest => [nl] | _ => [] end) param_lines' in
+  [nl] ++ doc ++ [nl; nl] ++ nl0 ++ params ++ [nl] ++ ret ++ [nl] ++ nl1.
+
+Definition ret_part (w : nat) (st : style) (ww edd : bool) (i : ir) : outcome (str * fld gparam) :=
+  match ir_returns i with
+  | Has g =>
+    match param_of_gparam g with
+    | None => Err Unmodelled
+    | Some p =>
+      do sp <- emit_param_str w (L "return_type") p st true true ww edd;
+      Ok ((match st with Rest => [] | _ => nl :: return_token st end) ++ [nl] ++ fst sp,
+          Has (gparam_of_param (snd sp)))
+    end
+  | other => Ok ([], other)
+  end.
+
+Definition doc_part (w : nat) (ww : bool) (i : ir) : outcome str :=
+  match ir_doc i with
+  | Missing => Err KeyError
+  | FNone => if ww then Err AttributeError else Ok (L "None")
+  | Has d => fill_or_id ww w d
+  end.
+
+Lemma emit_docstring_assemble : forall w st ww edd i,
+    emit_docstring w st ww edd i =
+    match params_of (ir_params i) with
+    | None => Err Unmodelled
+    | Some ps =>
+      do doc <- doc_part w ww i;
+      do pl <- emit_items (fun k p => emit_param_str w k p st true true ww edd) ps;
+      do ret <- ret_part w st ww edd i;
+      Ok (assemble st doc (fst pl) (fst ret),
+          mkIR (ir_name i) (ir_type i) (ir_doc i) (gparams_of (snd pl)) (snd ret) (ir_internal i))
+    end.
+Proof. reflexivity. Qed.
+
+Lemma assemble_words : forall st doc pls ret,
+    words (assemble st doc pls ret) =
+    words doc
+    ++ concat (map words (match pls, st with [], _ => pls | _, Rest => pls | _, _ => arg_token st :: pls end))
+    ++ words ret.
+Proof.
+  intros st doc pls ret. unfold assemble.
+  set (pls' := match pls, st with [], _ => pls | _, Rest => pls | _, _ => arg_token st :: pls end).
+  change ([nl] ++ doc ++ [nl; nl] ++ ?x) with (nl :: (doc ++ nl :: nl :: x)).
+  rewrite words_cons_sp by reflexivity. rewrite words_app_nl. rewrite words_cons_sp by reflexivity.
+  f_equal.
+  assert (Hj : words (join (nl :: match st with Rest => [nl] | _ => [] end) pls') = concat (map words pls')).
+  { apply words_join_allsp; [discriminate|]. destruct st; reflexivity. }
+  rewrite (words_app_allsp_l (match st with Rest => [] | _ => [nl] end)) by (destruct st; reflexivity).
+  change (?p ++ [nl] ++ ret ++ [nl] ++ ?z) with (p ++ nl :: (ret ++ nl :: z)).
+  rewrite words_app_nl, words_app_nl, Hj. f_equal.
+  destruct st; [change (words []) with (@nil str)|rewrite (words_allsp [nl]) by reflexivity
+                |change (words []) with (@nil str)]; apply app_nil_r.
+Qed.
+
+Lemma words_join2 : forall a b,
+    words (join [nl] (filter nonempty (cat_options [Some a; Some b]))) = words a ++ words b.
+Proof. intros a b. cbn [cat_options]. rewrite words_join_filter_nonempty. cbn [map concat]. now rewrite app_nil_r. Qed.
+
+Lemma words_join1l : forall a,
+    words (join [nl] (filter nonempty (cat_options [Some a; None]))) = words a.
+Proof. intros a. cbn [cat_options]. rewrite words_join_filter_nonempty. cbn [map concat]. now rewrite app_nil_r. Qed.
+
+Lemma words_join1r : forall b,
+    words (join [nl] (filter nonempty (cat_options [None; Some b]))) = words b.
+Proof. intros b. cbn [cat_options]. rewrite words_join_filter_nonempty. cbn [map concat]. now rewrite app_nil_r. Qed.
+
+(* one entry, any style *)
+Lemma C18_entry_words : forall w st edd name p tw p1,
+    plain_entry st edd (name, p) = true ->
+    emit_param_str w name p st true true true edd = Ok (tw, p1) ->
+    exists tu, emit_param_str w name p st true true false edd = Ok (tu, p1) /\ words tw = words tu.
+Proof.
+  intros w st edd name p tw p1 Hpl H. destruct st.
+  - (* rest *)
+    unfold plain_entry, filled_lines in Hpl. cbn [fst snd] in Hpl.
+    destruct (rest_raw_lines name p true true edd) as [[ls p']|e] eqn:Eraw.
+    + cbn [bind fst] in Hpl.
+      assert (Hn : Forall (fun l => no_exotic_space l = true) ls).
+      { apply Forall_forall. intros l Hl. rewrite forallb_forall in Hpl. now apply Hpl. }
+      destruct (C18_rest_entry_lemma w name p true true edd ls p' tw p1 Eraw Hn H)
+        as [E1 [Hw [_ [tu [Htu Hwu]]]]].
+      subst p1. exists tu. split; [assumption|congruence].
+    + unfold emit_param_str in H. rewrite Eraw in H. discriminate.
+  - (* numpydoc *)
+    unfold emit_param_str in *.
+    destruct (truthy_fld (p_typ p)) as [t|].
+    + cbn [fill_or_id] in *.
+      destruct (fill w (if is_return name then t else name ++ L " : " ++ t)) as [f1|e] eqn:E1; [|discriminate].
+      cbn [bind] in *.
+      destruct (truthy_fld (p_doc p)) as [d|].
+      * destruct (sdd_doc name p edd) as [[d' p']|e]; [|discriminate]. cbn [bind fst snd] in *.
+        destruct (fill w (indent tab d')) as [f2|e] eqn:E2; [|discriminate]. cbn [bind fst snd] in *.
+        inversion H; subst. eexists. split; [reflexivity|].
+        transitivity (words f1 ++ words f2); [exact (words_join2 f1 f2)|].
+        rewrite (fill_words w _ f1 E1), (fill_words w _ f2 E2). symmetry. exact (words_join2 _ _).
+      * cbn [bind fst snd] in *. inversion H; subst. eexists. split; [reflexivity|].
+        transitivity (words f1); [exact (words_join1l f1)|].
+        rewrite (fill_words w _ f1 E1). symmetry. exact (words_join1l _).
+    + cbn [bind] in *. destruct (truthy_fld (p_doc p)) as [d|].
+      * destruct (sdd_doc name p edd) as [[d' p']|e]; [|discriminate]. cbn [bind fst snd fill_or_id] in *.
+        destruct (fill w (indent tab d')) as [f2|e] eqn:E2; [|discriminate]. cbn [bind fst snd] in *.
+        inversion H; subst. eexists. split; [reflexivity|].
+        transitivity (words f2); [exact (words_join1r f2)|].
+        rewrite (fill_words w _ f2 E2). symmetry. exact (words_join1r _).
+      * cbn [bind fst snd] in *. inversion H; subst. eexists. split; reflexivity.
+  - (* google: word_wrap is not consulted *)
+    exists tw. split; [exact H|reflexivity].
+Qed.
+
+Lemma C18_items_words : forall w st edd ps lw ps1,
+    forallb (plain_entry st edd) ps = true ->
+    emit_items (fun k p => emit_param_str w k p st true true true edd) ps = Ok (lw, ps1) ->
+    exists lu, emit_items (fun k p => emit_param_str w k p st true true false edd) ps = Ok (lu, ps1)
+               /\ Forall2 (fun a b => words a = words b) lw lu.
+Proof.
+  intros w st edd ps. induction ps as [|[k p] r IH]; intros lw ps1 Hpl H.
+  - cbn [emit_items] in *. inversion H; subst. exists []. split; [reflexivity|constructor].
+  - cbn [forallb] in Hpl. apply andb_true_iff in Hpl. destruct Hpl as [Hp Hr].
+    cbn [emit_items] in *.
+    destruct (emit_param_str w k p st true true true edd) as [[tw p1]|e] eqn:E1; [|discriminate].
+    cbn [bind fst snd] in H.
+    destruct (emit_items (fun k p => emit_param_str w k p st true true true edd) r) as [[lw' ps']|e] eqn:E2;
+      [|discriminate].
+    cbn [bind fst snd] in H. inversion H; subst.
+    destruct (C18_entry_words w st edd k p tw p1 Hp E1) as [tu [Etu Hw]].
+    destruct (IH lw' ps' Hr eq_refl) as [lu [Elu Hf]].
+    rewrite Etu. cbn [bind fst snd]. rewrite Elu. cbn [bind fst snd].
+    exists (tu :: lu). split; [reflexivity|now constructor].
+Qed.
+
+Lemma Forall2_words_concat : forall a b, Forall2 (fun x y => words x = words y) a b ->
+                                         concat (map words a) = concat (map words b).
+Proof. intros a b H. induction H as [|x y a' b' Hxy Hr IH]; [reflexivity|]. cbn [map concat]. now rewrite Hxy, IH. Qed.
+
+(* THE WHOLE DOCSTRING: inside Fill's fragment, emit.docstring with word_wrap on succeeds only if it succeeds
+   with word_wrap off, mutates the IR identically, and the two texts have the same words in the same order *)
+Lemma C18_docstring_words_lemma : forall w st edd i tw i1,
+    ir_plain st edd i = true ->
+    emit_docstring w st true edd i = Ok (tw, i1) ->
+    exists tu, emit_docstring w st false edd i = Ok (tu, i1) /\ words tw = words tu.
+Proof.
+  intros w st edd i tw i1 Hpl H. rewrite emit_docstring_assemble in *.
+  unfold ir_plain in Hpl. apply andb_true_iff in Hpl. destruct Hpl as [Hps Hret].
+  destruct (params_of (ir_params i)) as [ps|]; [|discriminate].
+  (* summary *)
+  unfold doc_part in *. destruct (ir_doc i) as [| |d] eqn:Ed; try discriminate.
+  cbn [fill_or_id] in *. destruct (fill w d) as [d'|e] eqn:Efd; [|discriminate]. cbn [bind] in *.
+  (* parameters *)
+  destruct (emit_items (fun k p => emit_param_str w k p st true true true edd) ps) as [[lw ps1]|e] eqn:Ei;
+    [|discriminate].
+  destruct (C18_items_words w st edd ps lw ps1 Hps Ei) as [lu [Elu Hf]].
+  rewrite Elu. cbn [bind fst snd] in *.
+  (* return entry *)
+  unfold ret_part in *. destruct (ir_returns i) as [| |g].
+  - cbn [bind fst snd] in *. inversion H; subst. eexists. split; [reflexivity|].
+    rewrite !assemble_words. rewrite (fill_words w d d' Efd). f_equal. f_equal.
+    pose proof (Forall2_words_concat _ _ Hf) as Hc.
+    inversion Hf; subst; [reflexivity|]. destruct st; cbn [map concat] in *; congruence.
+  - cbn [bind fst snd] in *. inversion H; subst. eexists. split; [reflexivity|].
+    rewrite !assemble_words. rewrite (fill_words w d d' Efd). f_equal. f_equal.
+    pose proof (Forall2_words_concat _ _ Hf) as Hc.
+    inversion Hf; subst; [reflexivity|]. destruct st; cbn [map concat] in *; congruence.
+  - destruct (param_of_gparam g) as [p|]; [|discriminate].
+    destruct (emit_param_str w (L "return_type") p st true true true edd) as [[rw p1]|e] eqn:Er; [|discriminate].
+    destruct (C18_entry_words w st edd _ p rw p1 Hret Er) as [ru [Eru Hwr]].
+    rewrite Eru. cbn [bind fst snd] in *. inversion H; subst. eexists. split; [reflexivity|].
+    rewrite !assemble_words. rewrite (fill_words w d d' Efd). f_equal.
+    pose proof (Forall2_words_concat _ _ Hf) as Hc.
+    f_equal.
+    + inversion Hf; subst; [reflexivity|]. destruct st; cbn [map concat] in *; congruence.
+    + change (?h ++ [nl] ++ ?t) with (h ++ nl :: t). rewrite !words_app_nl. now rewrite Hwr.
+Qed.
